@@ -5,6 +5,7 @@ package threx
 
 import (
 	"context"
+	"errors"
 	"fmt"
 	"io"
 	"log/slog"
@@ -34,12 +35,17 @@ func init() {
 type ctlCtx struct {
 	context.Context
 	done chan struct{}
+	once sync.Once
 }
+
+func (c *ctlCtx) cancel() { c.once.Do(func() { vch.Close(c.done) }) }
 
 func (c *ctlCtx) Done() <-chan struct{} { return c.done }
 func (c *ctlCtx) Err() error            { return context.Canceled }
 
 type recorder struct {
+	failAt int // the n-th body write fails (0 = never): a broken stream
+	writes int
 	mu     sync.Mutex
 	group  string
 	id     string
@@ -55,6 +61,10 @@ func (r *recorder) Flush()              {}
 func (r *recorder) Write(b []byte) (int, error) {
 	r.mu.Lock()
 	defer r.mu.Unlock()
+	r.writes++
+	if r.failAt > 0 && r.writes >= r.failAt {
+		return 0, errors.New("broken pipe")
+	}
 	r.bodies = append(r.bodies, string(b))
 	return len(b), nil
 }
@@ -73,6 +83,7 @@ type connSpec struct {
 	group, id  string
 	disconnect bool // the client goes away at some point
 	delay      int  // connect after that many messages were sent (reconnects)
+	writeFail  int  // the n-th write to the stream fails (0 = never)
 }
 
 type C18Scenario struct {
@@ -96,6 +107,14 @@ type c18Outcome struct {
 }
 
 func (j *C18Job) runOnce(ch vch.Chooser, keepTrace bool) (*c18Outcome, *vch.Scheduler) {
+	return j.run(ch, keepTrace, false)
+}
+
+// FreeRun executes the scenario body once with real goroutines and native channel
+// operations (shim in pass-through mode): the body of the separate -race pass.
+func (j *C18Job) FreeRun() { j.run(nil, false, true) }
+
+func (j *C18Job) run(ch vch.Chooser, keepTrace bool, free bool) (*c18Outcome, *vch.Scheduler) {
 	sc := j.Sc
 	out := &c18Outcome{}
 	m := metrics.New(prometheus.NewRegistry())
@@ -112,11 +131,13 @@ func (j *C18Job) runOnce(ch vch.Chooser, keepTrace bool) (*c18Outcome, *vch.Sche
 	}
 	recs := make([]*recorder, len(sc.Conns))
 	ctxKey := make([]uintptr, len(sc.Conns))
-	s := vch.Run(ch, vch.Options{MaxSteps: 4000, KeepTrace: keepTrace, KeepEvents: true}, func() {
+	var allHandlers []*vch.Thread
+	var allCtx []*ctlCtx
+	body := func() {
 		var handlers []*vch.Thread
 		// http.Server.Shutdown: waits until the active handlers have returned, or gives up
 		// after the configured timeout (an environment action of the explorer)
-		vch.Current().ShutdownWait = func(context.Context) error {
+		vch.SetShutdownWait(func(context.Context) error {
 			if vch.WaitCond("http.Shutdown(handlers gone)", func() bool {
 				for _, h := range handlers {
 					if !h.Finished() {
@@ -128,15 +149,16 @@ func (j *C18Job) runOnce(ch vch.Chooser, keepTrace bool) (*c18Outcome, *vch.Sche
 				return context.DeadlineExceeded
 			}
 			return nil
-		}
+		})
 		worker := vch.GoNamed("worker", func() { p.VerifWorker().Start() })
 		var ctxs []*ctlCtx
 		startConn := func(i int) {
 			c := sc.Conns[i]
-			rec := &recorder{group: c.group, id: c.id, hdr: http.Header{}}
+			rec := &recorder{group: c.group, id: c.id, hdr: http.Header{}, failAt: c.writeFail}
 			recs[i] = rec
 			cx := &ctlCtx{Context: context.Background(), done: make(chan struct{})}
 			ctxs = append(ctxs, cx)
+			allCtx = append(allCtx, cx)
 			ctxKey[i] = vch.KeyOf(cx.done)
 			req, _ := http.NewRequest("GET", "http://x/"+c.group+"/"+c.id, nil)
 			req = req.WithContext(cx)
@@ -146,8 +168,9 @@ func (j *C18Job) runOnce(ch vch.Chooser, keepTrace bool) (*c18Outcome, *vch.Sche
 				rec.ended = true
 				rec.mu.Unlock()
 			}))
+			allHandlers = handlers
 			if c.disconnect {
-				vch.GoNamed(fmt.Sprintf("client%d-leaves", i), func() { vch.Close(cx.done) })
+				vch.GoNamed(fmt.Sprintf("client%d-leaves", i), func() { cx.cancel() })
 			}
 		}
 		for i, c := range sc.Conns {
@@ -202,7 +225,22 @@ func (j *C18Job) runOnce(ch vch.Chooser, keepTrace bool) (*c18Outcome, *vch.Sche
 				vch.Join(h)
 			}
 		}
-	})
+	}
+	if free {
+		body()
+		// let every goroutine of this iteration end: clients leave, the transport stops
+		if !sc.Stop {
+			_ = p.Stop()
+		}
+		for _, cx := range allCtx {
+			cx.cancel()
+		}
+		for _, h := range allHandlers {
+			vch.Join(h)
+		}
+		return out, nil
+	}
+	s := vch.Run(ch, vch.Options{MaxSteps: 4000, KeepTrace: keepTrace, KeepEvents: true}, body)
 	// ---- oracle ----
 	for _, pn := range s.Panics {
 		// a panic of a handler goroutine is recovered by net/http; after Shutdown gave up
@@ -264,7 +302,7 @@ func (j *C18Job) runOnce(ch vch.Chooser, keepTrace bool) (*c18Outcome, *vch.Sche
 			// the addressed id was connected the whole time and never left: it must be the one
 			if r.id != mm.id && mm.id != "" {
 				for ci, c := range sc.Conns {
-					if sc.Settle && c.group == mm.group && c.id == mm.id && !c.disconnect && c.delay == 0 && recs[ci] != nil && recs[ci].status == 0 && stable(sc, ci) {
+					if sc.Settle && c.group == mm.group && c.id == mm.id && !c.disconnect && c.writeFail == 0 && c.delay == 0 && recs[ci] != nil && recs[ci].status == 0 && stable(sc, ci) {
 						out.viol = append(out.viol, fmt.Sprintf("message %d addressed to %s/%s went to %s/%s although %s was connected throughout", i, mm.group, mm.id, r.group, r.id, mm.id))
 					}
 				}
@@ -275,7 +313,7 @@ func (j *C18Job) runOnce(ch vch.Chooser, keepTrace bool) (*c18Outcome, *vch.Sche
 			// connection was closed (disconnect, replacement, shutdown, over the limit)
 			lost := true
 			for ci, c := range sc.Conns {
-				if c.group == mm.group && (c.disconnect || sc.Stop || !stable(sc, ci)) {
+				if c.group == mm.group && (c.disconnect || c.writeFail > 0 || sc.Stop || !stable(sc, ci)) {
 					lost = false
 				}
 			}
@@ -334,10 +372,11 @@ func (j *C18Job) model(s *vch.Scheduler, p *poll.Poll, ctxKey []uintptr, msgs []
 	mClosed := make([]bool, len(sc.Conns))
 	rClosed := make([]bool, len(sc.Conns))
 	seenByWorker := make([]bool, len(sc.Conns))
+	goneEarly := make([]bool, len(sc.Conns))
 	accepted := make([]int, len(msgs)) // 0 not processed, 1 accepted, 2 refused
 	target := make([]int, len(msgs))
 	fifo := map[uintptr][]string{}
-	shutdown := false
+	shutdown, exited := false, false
 	remove := func(ci int) bool {
 		g := sc.Conns[ci].group
 		for k, x := range groups[g] {
@@ -384,6 +423,9 @@ func (j *C18Job) model(s *vch.Scheduler, p *poll.Poll, ctxKey []uintptr, msgs []
 			}
 			finishMsg()
 			if !e.Ok {
+				if e.Key != sqK {
+					exited = true // the registry queues were closed (Stop): the worker returns
+				}
 				if e.Key == sqK {
 					shutdown = true
 					for g, l := range groups {
@@ -406,6 +448,10 @@ func (j *C18Job) model(s *vch.Scheduler, p *poll.Poll, ctxKey []uintptr, msgs []
 			case conK:
 				ci := connOf(from)
 				seenByWorker[ci] = true
+				if goneEarly[ci] {
+					mClosed[ci] = true
+					continue
+				}
 				// a reconnect with the same id replaces the older connection
 				for _, x := range append([]int{}, groups[sc.Conns[ci].group]...) {
 					if sc.Conns[x].id == sc.Conns[ci].id {
@@ -423,6 +469,10 @@ func (j *C18Job) model(s *vch.Scheduler, p *poll.Poll, ctxKey []uintptr, msgs []
 				ci := connOf(from)
 				if remove(ci) {
 					mClosed[ci] = true
+				} else if !seenByWorker[ci] {
+					// the disconnect overtook the connect (separate queues): the listener is gone,
+					// its connect must not register it any more
+					goneEarly[ci] = true
 				}
 			case sqK:
 				var mi int
@@ -514,7 +564,7 @@ func (j *C18Job) model(s *vch.Scheduler, p *poll.Poll, ctxKey []uintptr, msgs []
 					got = true
 				}
 			}
-			if !got && !sc.Conns[target[i]].disconnect && quiet && s.TimedOut == 0 {
+			if !got && !sc.Conns[target[i]].disconnect && sc.Conns[target[i]].writeFail == 0 && quiet && s.TimedOut == 0 {
 				bad("message %d was accepted by %s, whose client never went away, but was never written to it", i, name(target[i]))
 			}
 		case 2:
@@ -527,6 +577,12 @@ func (j *C18Job) model(s *vch.Scheduler, p *poll.Poll, ctxKey []uintptr, msgs []
 		for ci := range sc.Conns {
 			if !seenByWorker[ci] {
 				continue
+			}
+			recs[ci].mu.Lock()
+			ended := recs[ci].ended
+			recs[ci].mu.Unlock()
+			if ended && !mClosed[ci] && !shutdown && !exited {
+				bad("%s is gone (its handler returned) but it never unregistered: it is still the registered listener and keeps being offered messages", name(ci))
 			}
 			if mClosed[ci] && !rClosed[ci] {
 				bad("%s was replaced / disconnected / rejected / shut down but its stream was never closed", name(ci))
@@ -551,7 +607,7 @@ func stable(sc C18Scenario, ci int) bool {
 
 func sigOf(v string) string {
 	if strings.HasPrefix(v, "model: ") {
-		for _, p := range []string{"harness", "was offered to", "not offered", "refused", "Done reported", "never written", "never closed", "was closed although", "without a message"} {
+		for _, p := range []string{"harness", "was offered to", "not offered", "refused", "Done reported", "never written", "never closed", "was closed although", "never unregistered", "without a message"} {
 			if strings.Contains(v, p) {
 				return "model-" + strings.ReplaceAll(p, " ", "-")
 			}
@@ -610,6 +666,9 @@ func (j *C18Job) Run(deadline time.Time) *runner.JobResult {
 		return len(seen) < 4
 	})
 	res.Executions, res.Transitions, res.MaxDepth, res.Capped = ex.Stats.Executions, ex.Stats.Transitions, ex.Stats.MaxDepth, ex.Stats.Capped
+	if ex.Stats.MemStop {
+		res.Notes = append(res.Notes, "stopped at the memory limit of the worker process")
+	}
 	res.States = int64(len(outcomes))
 	for o := range outcomes {
 		res.Outcomes = append(res.Outcomes, o)
@@ -629,19 +688,20 @@ func C18Jobs(tier string) []runner.Job {
 	inv := func(g, id, body string) pmsg { return pmsg{typ: message.Invoke, group: g, id: id, body: body} }
 	ntf := func(g, id, body string) pmsg { return pmsg{typ: message.Notify, group: g, id: id, body: body} }
 	scs := []C18Scenario{
-		{Name: "two-listeners-one-group/invoke-to-id", MaxConn: 3, Buffer: 1, Conns: []connSpec{{"g1", "a", false, 0}, {"g1", "b", false, 0}}, Msgs: []pmsg{inv("g1", "a", "m0"), inv("g1", "a", "m1")}, Bound: b},
-		{Name: "two-groups/invoke+notify", MaxConn: 3, Buffer: 1, Conns: []connSpec{{"g1", "a", false, 0}, {"g2", "a", false, 0}}, Msgs: []pmsg{inv("g1", "zz", "m0"), ntf("g2", "a", "m1")}, Bound: b},
-		{Name: "notify-absent-id", MaxConn: 3, Buffer: 2, Conns: []connSpec{{"g1", "a", false, 0}, {"g1", "b", false, 0}}, Msgs: []pmsg{ntf("g1", "c", "m0"), ntf("g1", "b", "m1")}, Bound: b},
-		{Name: "disconnect-while-sending", MaxConn: 3, Buffer: 1, Conns: []connSpec{{"g1", "a", true, 0}, {"g1", "b", false, 0}}, Msgs: []pmsg{inv("g1", "a", "m0"), inv("g1", "a", "m1")}, Bound: b},
-		{Name: "reconnect-same-id", MaxConn: 3, Buffer: 1, Conns: []connSpec{{"g1", "a", false, 0}, {"g1", "a", false, 1}}, Msgs: []pmsg{inv("g1", "a", "m0"), inv("g1", "a", "m1")}, Bound: b},
-		{Name: "over-the-limit", MaxConn: 1, Buffer: 1, Conns: []connSpec{{"g1", "a", false, 0}, {"g1", "b", false, 0}}, Msgs: []pmsg{inv("g1", "b", "m0")}, Bound: b},
-		{Name: "buffer-full", MaxConn: 2, Buffer: 1, Conns: []connSpec{{"g1", "a", false, 0}}, Msgs: []pmsg{inv("g1", "a", "m0"), inv("g1", "a", "m1"), inv("g1", "a", "m2")}, Bound: b},
-		{Name: "stop-while-busy", MaxConn: 3, Buffer: 1, Conns: []connSpec{{"g1", "a", false, 0}, {"g2", "b", true, 0}}, Msgs: []pmsg{inv("g1", "a", "m0"), ntf("g2", "b", "m1")}, Stop: true, Bound: b},
-		{Name: "stop-reconnect-disconnect", MaxConn: 2, Buffer: 1, Conns: []connSpec{{"g1", "a", true, 0}, {"g1", "a", false, 1}}, Msgs: []pmsg{inv("g1", "", "m0")}, Stop: true, Bound: b},
-		{Name: "reconnect-then-old-client-leaves", MaxConn: 3, Buffer: 1, Conns: []connSpec{{"g1", "a", true, 0}, {"g1", "a", false, 1}, {"g1", "b", false, 0}}, Msgs: []pmsg{inv("g1", "zz", "m0"), inv("g1", "a", "m1")}, Bound: b},
-		{Name: "reconnect-at-the-limit", MaxConn: 2, Buffer: 1, Conns: []connSpec{{"g1", "a", false, 0}, {"g1", "b", false, 0}, {"g1", "a", false, 1}}, Msgs: []pmsg{ntf("g1", "b", "m0"), ntf("g1", "a", "m1")}, Bound: b},
-		{Name: "three-listeners-prefer-id", MaxConn: 3, Buffer: 1, Conns: []connSpec{{"g1", "a", false, 0}, {"g1", "b", false, 0}, {"g1", "c", false, 0}}, Msgs: []pmsg{inv("g1", "c", "m0")}, Bound: b},
-		{Name: "no-id-random-pick", MaxConn: 3, Buffer: 1, Conns: []connSpec{{"g1", "a", false, 0}, {"g1", "b", false, 0}, {"g2", "c", false, 0}}, Msgs: []pmsg{inv("g1", "", "m0"), inv("g1", "q", "m1")}, Bound: b},
+		{Name: "two-listeners-one-group/invoke-to-id", MaxConn: 3, Buffer: 1, Conns: []connSpec{{"g1", "a", false, 0, 0}, {"g1", "b", false, 0, 0}}, Msgs: []pmsg{inv("g1", "a", "m0"), inv("g1", "a", "m1")}, Bound: b},
+		{Name: "two-groups/invoke+notify", MaxConn: 3, Buffer: 1, Conns: []connSpec{{"g1", "a", false, 0, 0}, {"g2", "a", false, 0, 0}}, Msgs: []pmsg{inv("g1", "zz", "m0"), ntf("g2", "a", "m1")}, Bound: b},
+		{Name: "notify-absent-id", MaxConn: 3, Buffer: 2, Conns: []connSpec{{"g1", "a", false, 0, 0}, {"g1", "b", false, 0, 0}}, Msgs: []pmsg{ntf("g1", "c", "m0"), ntf("g1", "b", "m1")}, Bound: b},
+		{Name: "disconnect-while-sending", MaxConn: 3, Buffer: 1, Conns: []connSpec{{"g1", "a", true, 0, 0}, {"g1", "b", false, 0, 0}}, Msgs: []pmsg{inv("g1", "a", "m0"), inv("g1", "a", "m1")}, Bound: b},
+		{Name: "reconnect-same-id", MaxConn: 3, Buffer: 1, Conns: []connSpec{{"g1", "a", false, 0, 0}, {"g1", "a", false, 1, 0}}, Msgs: []pmsg{inv("g1", "a", "m0"), inv("g1", "a", "m1")}, Bound: b},
+		{Name: "over-the-limit", MaxConn: 1, Buffer: 1, Conns: []connSpec{{"g1", "a", false, 0, 0}, {"g1", "b", false, 0, 0}}, Msgs: []pmsg{inv("g1", "b", "m0")}, Bound: b},
+		{Name: "buffer-full", MaxConn: 2, Buffer: 1, Conns: []connSpec{{"g1", "a", false, 0, 0}}, Msgs: []pmsg{inv("g1", "a", "m0"), inv("g1", "a", "m1"), inv("g1", "a", "m2")}, Bound: b},
+		{Name: "stop-while-busy", MaxConn: 3, Buffer: 1, Conns: []connSpec{{"g1", "a", false, 0, 0}, {"g2", "b", true, 0, 0}}, Msgs: []pmsg{inv("g1", "a", "m0"), ntf("g2", "b", "m1")}, Stop: true, Bound: b},
+		{Name: "stop-reconnect-disconnect", MaxConn: 2, Buffer: 1, Conns: []connSpec{{"g1", "a", true, 0, 0}, {"g1", "a", false, 1, 0}}, Msgs: []pmsg{inv("g1", "", "m0")}, Stop: true, Bound: b},
+		{Name: "reconnect-then-old-client-leaves", MaxConn: 3, Buffer: 1, Conns: []connSpec{{"g1", "a", true, 0, 0}, {"g1", "a", false, 1, 0}, {"g1", "b", false, 0, 0}}, Msgs: []pmsg{inv("g1", "zz", "m0"), inv("g1", "a", "m1")}, Bound: b},
+		{Name: "reconnect-at-the-limit", MaxConn: 2, Buffer: 1, Conns: []connSpec{{"g1", "a", false, 0, 0}, {"g1", "b", false, 0, 0}, {"g1", "a", false, 1, 0}}, Msgs: []pmsg{ntf("g1", "b", "m0"), ntf("g1", "a", "m1")}, Bound: b},
+		{Name: "three-listeners-prefer-id", MaxConn: 3, Buffer: 1, Conns: []connSpec{{"g1", "a", false, 0, 0}, {"g1", "b", false, 0, 0}, {"g1", "c", false, 0, 0}}, Msgs: []pmsg{inv("g1", "c", "m0")}, Bound: b},
+		{Name: "stream-write-fails", MaxConn: 3, Buffer: 1, Conns: []connSpec{{"g1", "a", false, 0, 1}, {"g1", "b", false, 0, 0}}, Msgs: []pmsg{inv("g1", "a", "m0"), inv("g1", "a", "m1")}, Bound: b},
+		{Name: "no-id-random-pick", MaxConn: 3, Buffer: 1, Conns: []connSpec{{"g1", "a", false, 0, 0}, {"g1", "b", false, 0, 0}, {"g2", "c", false, 0, 0}}, Msgs: []pmsg{inv("g1", "", "m0"), inv("g1", "q", "m1")}, Bound: b},
 	}
 	if tier != "thorough" {
 		for i := range scs {
@@ -674,8 +734,9 @@ func init() {
 			Property: "C18", Engine: "threx", Level: "model_checking",
 			Jobs: C18Jobs,
 			Rule:   "the real PollWorker.Start, 2-3 real ServeHTTP handler threads on recording response writers (connect, client going away through a cancellable context, reconnect with the same id, connection over the limit), 1-3 sender threads calling Enqueue with invoke / notify messages for present, absent and unspecified ids over two groups, and Poll.Stop, connection buffer 1-2, connection limit 1-3; EVERY interleaving at channel-operation granularity within preemption bound 2 (3 thorough), a non-default ready select case and every rand.Intn result being choices too; distinct = distinct (per-message outcome, per-listener deliveries) vectors",
-			Assume: []string{"the channel operations of poll.go are instrumented by an AST rewriter at check time (it fails loudly on syntax it does not know); sequentially consistent interleavings at channel-operation granularity; plain memory races are left to the free-running -race pass"},
+			Assume: []string{"the channel operations of poll.go are instrumented by an AST rewriter at check time (it fails loudly on syntax it does not know); sequentially consistent interleavings at channel-operation granularity; plain memory races between two such operations are looked for by the separate free-running -race pass (sampling, supplementary)"},
 			QuickS: 150, ThoroughS: 1500,
+			PostCheck: racePass("C18"), Extra: raceExtra,
 		}
 	}
 }
